@@ -705,6 +705,11 @@ def rule_ctrl(ctx, rep):
                 if a[0] == "eq" and a[2] == ("c", 0) and a[1][0] == "phi":
                     e2 = ir.expr(pb, ["i", a[1][1]], 8, through_phi=True)
                     return ir.expr_contains(e2, lambda z: z[0] == "load" and (z[1].endswith("defer_queue.head") or z[1].endswith("defer_queue.last_head")))
+                if a[0] == "eq" and a[2] == ("c", 0) and a[1][0] == "call" and m.fn(a[1][1]) is not None:
+                    # the count comes from a helper: it is a count of queued calls if what the helper returns is built from head loads
+                    h_ = m.fn(a[1][1])
+                    rr = [x for x in h_.rets() if x.args]
+                    return bool(rr) and ir.expr_contains(ir.expr(h_, rr[0].args[0], 8, through_phi=True), lambda z: z[0] == "load" and (z[1].endswith("defer_queue.head") or z[1].endswith("defer_queue.last_head")))
                 if a[0] == "eq" and a[1][0] == "load" and a[1][1].startswith("@registry_defer") and a[2][0] == "addr" and a[2][1] == "@registry_defer":
                     return True      # inlined cds_list_empty
                 return False
@@ -712,8 +717,24 @@ def rule_ctrl(ctx, rep):
             # the end of the *decoding* walk over the registry (the loop that contains the decoder call) is the regular way out
             dec_loops = [c_ for c_ in pb.sccs() if any(x.blk.id in c_ for x in bq)]
             okE += [(t.blk.id, s_) for t, s_, a in pat.branch_edges_on(pb, lambda a: a[0] == "eq" and a[2][0] == "addr" and a[2][1] == "@registry_defer") if any(t.blk.id in c_ for c_ in dec_loops)]
-            rep.must_take_edge("C13.ctrl", fl + ".barrier.skips-iff-nothing-queued", pb, [pb.entry()], list(pb.rets()), okE, include_start=True, avoid=lambda i: i in bq,
-                               what="rcu_defer_barrier returns without decoding only for an empty registry or when no call is queued")
+            hit, par = pb.reach([pb.entry()], list(pb.rets()), edge_ok=pat.block_edge_filter(okE), avoid=lambda i: i in bq, include_start=True)
+            if hit is None:
+                rep.ok("C13.ctrl", fl + ".barrier.skips-iff-nothing-queued", "rcu_defer_barrier returns without decoding only for an empty registry or when no call is queued")
+            else:
+                # a violation only when the way out is the *opposite* of a recognised test (non-empty registry / calls queued); any other shape is not comparable
+                def _wrong(a):
+                    if a[0] == "eq" and a[2] == ("c", 0) and a[1][0] == "call" and a[1][1].startswith("cds_list_empty"):
+                        return True
+                    flip = ("eq",) + tuple(a[1:]) if a[0] == "ne" else None
+                    return flip is not None and a[2] == ("c", 0) and _ok(flip)
+                pth = pb.path_to(hit, par)
+                blks = [i.blk.id for i in pth]
+                wrong = [(x, y) for x, y in zip(blks, blks[1:]) if x != y and any(_wrong(a) for a in ir.edge_atoms(pb, x, y))]
+                if wrong:
+                    rep.bad("C13.ctrl", fl + ".barrier.skips-iff-nothing-queued", "rcu_defer_barrier returns without decoding the queues when the registry is not empty / calls are queued (and does the work when there is none): "
+                            "it returns with calls queued before it still pending", [pb.blocks[wrong[0][0]].insts[-1].where()])
+                else:
+                    rep.unk("C13.ctrl", fl + ".barrier.skips-iff-nothing-queued", "rcu_defer_barrier has a way out without decoding that this rule cannot classify")
         # (f) reclaimer loop: a barrier after every wait
         t_ = g_("thr_defer")
         if t_ is not None:
